@@ -27,3 +27,72 @@ def chunk_alphabet(B, tier):
     if tier == "thorough":
         base += [2, 2 * B, 3 * B - 1]
     return base
+
+
+# ---- interference between objects ------------------------------------------------------------------------------------------------
+# Programs of every other object type (slots s8..s11; their own answers are not constrained here - each type is the constrained
+# "A" side in its own property). They are woven between the steps of a property's own programs: what one object does must not
+# depend on which other objects exist or were used in between (shared statics, caches, state leaking from one object to the next).
+def bystanders():
+    from mc.patterns import P, H
+    k32, k16, n12, n8, n24 = P(6, 9, 32), P(6, 9, 16), P(7, 9, 12), P(7, 9, 8), P(7, 9, 24)
+    pool = {
+        "sha1": ["hnew s8 sha1", "update_mut s8 %s" % P(4, 0, 70), "hclone s8 s9", "fin_reset s8", "fin s9"],
+        "sha256": ["hnew s8 sha256", "update_mut s8 %s" % P(4, 0, 200), "hclone s8 s9", "fin_reset s8", "fin s9"],
+        "sha512": ["hnew s8 sha512", "update_mut s8 %s" % P(4, 0, 300), "hclone s8 s9", "fin_reset s8", "fin s9"],
+        "sha3": ["hnew s8 sha3_256", "update_mut s8 %s" % P(4, 0, 140), "hclone s8 s9", "fin_reset s8", "fin s9"],
+        "keccak": ["hnew s8 keccak512", "update_mut s8 %s" % P(4, 0, 75), "fin s8"],
+        "ripemd160": ["hnew s8 ripemd160", "update_mut s8 %s" % P(4, 0, 70), "fin_reset s8", "update_mut s8 %s" % P(4, 0, 3), "fin s8"],
+        "blake2b": ["hnew s8 b2bdyn 64 %s" % H(b"key"), "update_mut s8 %s" % P(4, 0, 260), "hclone s8 s9", "fin_reset s8", "fin s9"],
+        "blake2s": ["hnew s8 b2sdyn 32", "update_mut s8 %s" % P(4, 0, 130), "fin_reset s8", "update_mut s8 %s" % P(4, 0, 3), "fin s8"],
+        "oneshot": ["hash sha256 %s" % P(4, 0, 70), "hash sha512 %s" % P(4, 0, 70), "hash blake2b_512 %s" % P(4, 0, 70), "hash sha3_256 %s" % P(4, 0, 70)],
+        "hmac": ["mnew s8 hmac sha256 %s" % P(6, 9, 20), "minput s8 %s" % P(4, 0, 70), "mresult s8", "mreset s8", "minput s8 %s" % P(4, 0, 5), "mraw s8"],
+        "hmac512": ["mnew s8 hmac sha512 %s" % P(6, 9, 200), "minput s8 %s" % P(4, 0, 130), "mraw s8"],
+        "poly1305": ["mnew s8 poly1305 %s" % k32, "minput s8 %s" % P(4, 0, 37), "mraw s8"],
+        "b2mac": ["mnew s8 blake2b 32 %s" % H(b"k"), "minput s8 %s" % P(4, 0, 130), "mresult s8", "mreset s8", "minput s8 %s" % P(4, 0, 1), "mresult s8"],
+        "legacy": ["dnew s8 sha256", "dinput s8 %s" % P(4, 0, 70), "dresult s8", "dreset s8", "dinput s8 %s" % P(4, 0, 3), "dresult s8"],
+        "chacha": ["cnew s8 chacha 20 %s %s" % (k32, n12), "process_mut s8 %s" % P(4, 0, 70), "seek s8 3", "process s8 %s" % P(4, 0, 5), "cclone s8 s9", "cprobe s9 65"],
+        "xchacha": ["cnew s8 xchacha 20 %s %s" % (k32, n24), "process_mut s8 %s" % P(4, 0, 130)],
+        "salsa": ["cnew s8 salsa 20 %s %s" % (k16, n8), "process_mut s8 %s" % P(4, 0, 70), "process s8 %s" % P(4, 0, 5)],
+        "xsalsa": ["cnew s8 xsalsa 20 %s %s" % (k32, n24), "process_mut s8 %s" % P(4, 0, 70)],
+        "drg": ["drgnew s8 20 %s" % k32, "drg_u32 s8", "drg_fill_slice s8 %s" % P(1, 7, 70), "drg_u64 s8"],
+        "aead": ["actx_new s8 20 %s %s" % (k32, n12), "actx_aad s8 %s" % P(4, 0, 13), "actx_toenc s8", "aenc_mut s8 %s" % P(4, 0, 70), "aenc_fin s8"],
+        "aead1": ["aead_new s8 20 %s %s %s" % (k32, n12, P(4, 0, 5)), "aead_enc s8 %s" % P(4, 0, 40)],
+        "kdf": ["pbkdf2 sha256 %s %s 2 40" % (H(b"pw"), H(b"salt")), "hkdf_extract sha256 %s %s" % (H(b"salt"), H(b"ikm")), "scrypt %s %s 1 1 1 33" % (H(b"pw"), H(b"salt"))],
+        "argon2": ["argon2 id 19 1 1 8 %s %s h: h: 32 at" % (P(5, 0, 16), P(6, 0, 16))],
+        "x25519": ["x25519_base %s" % k32, "x25519_dh %s %s" % (k32, P(5, 3, 32))],
+        "ed25519": ["ed_keypair %s" % k32, "ed_verify %s %s %s" % (H(b"msg"), k32, P(5, 1, 64))],
+    }
+    return pool
+
+
+def interfere(case, bops, mode):
+    """weave the ops of a bystander program between the steps of `case` (ops, expected, meta). mode 0: round-robin (one bystander op
+    after each step, the rest at the end); mode 1: the whole bystander program after every step of the case"""
+    ops, exp, meta = case
+    o2, e2 = [], []
+    j = 0
+    for i, (o, e) in enumerate(zip(ops, exp)):
+        o2.append(o)
+        e2.append(e)
+        if mode == 0:
+            if j < len(bops):
+                o2.append(bops[j])
+                e2.append(None)
+                j += 1
+        elif i + 1 < len(ops):
+            o2 += bops
+            e2 += [None] * len(bops)
+    if mode == 0:
+        o2 += bops[j:]
+        e2 += [None] * len(bops[j:])
+    return (o2, e2, meta)
+
+
+def interference_cases(own_cases):
+    out = []
+    for name, b in bystanders().items():
+        for c in own_cases:
+            for mode in (0, 1):
+                out.append(interfere(c, b, mode))
+    return out
